@@ -163,10 +163,8 @@ class ModbusSocketFramer(ModbusFramer):
                     _logger.debug("Frame check failed, ignoring!!")
                     self.resetFrame()
             else:
-                if len(self._buffer):
-                    # Possible error ???
-                    if self._header['len'] < 2:
-                        self._process(callback, error=True)
+                # fewer bytes than an MBAP header plus a function code: no
+                # frame can be complete yet, wait for more data
                 break
 
     def _process(self, callback, error=False):
